@@ -33,7 +33,9 @@ def load(model=True):
         from vf import npmodel
         from vf.npmodel import automap as automap_model
         import types
-        saved = {k: sys.modules.get(k) for k in ('numpy', 'automap', 'numpy.ma')}
+        import concurrent.futures  # noqa: F401
+        from vf.npmodel import executor as executor_model
+        saved = {k: sys.modules.get(k) for k in ('numpy', 'automap', 'numpy.ma', 'concurrent.futures')}
         ma = types.ModuleType('numpy.ma')
 
         class MaskedArray:  # numpy.ma is C-backed: constructing one in the model world is a gap
@@ -43,6 +45,7 @@ def load(model=True):
         sys.modules['numpy'] = npmodel
         sys.modules['numpy.ma'] = ma
         sys.modules['automap'] = automap_model
+        sys.modules['concurrent.futures'] = executor_model
         try:
             sf = importlib.import_module('static_frame')
         finally:
